@@ -282,7 +282,34 @@ pub fn c03(ctx: &mut Ctx, t: &Term) {
     }
   } else {
     match Obs::new(t) {
-      Ok(o) => c03_on(ctx, t, &o, &o, "same"),
+      Ok(o) => {
+        c03_on(ctx, t, &o, &o, "same");
+        if has_cached(t) {
+          // the same object once more, in the other order of column settings (an answer cached for
+          // one setting must not decide the other): map() is present exactly when the stream of
+          // the same setting has a mapped chunk
+          match Obs::new(t) {
+            Ok(o2) => {
+              for columns in [true, false, true] {
+                let (Ok(m), Ok(st)) = (o2.map(columns), o2.stream(columns, false)) else { continue };
+                let mapped = st.mapped_chunks() > 0;
+                if m.is_some() != mapped {
+                  let key = crate::findings::classify_map_presence(t, m.is_some());
+                  ctx.violation(
+                    "map_presence_after_other_setting",
+                    format!("columns={columns}"),
+                    key,
+                    || case_json(t),
+                    t.size(),
+                    format!("same object, columns={columns} after the other setting: map() is {}, the stream has {} mapped chunk(s)", if m.is_some() { "Some" } else { "None" }, st.mapped_chunks()),
+                  );
+                }
+              }
+            }
+            Err(e) => report_panic(ctx, t, "build", &e),
+          }
+        }
+      }
       Err(e) => report_panic(ctx, t, "build", &e),
     }
   }
@@ -682,6 +709,39 @@ pub fn c07_views(ctx: &mut Ctx, t: &Term) {
   ctx.outcome(&(buffer.len(), text.len(), model::all_utf8(t)));
   ctx.transitions += 5;
   ctx.traces_validated += 1;
+}
+
+/// "children added later": a ConcatSource built child by child with `add`, with the content
+/// observers called after every step - each answer is the concatenation of the children so far.
+pub fn c07_staged_concat(ctx: &mut Ctx, t: &Term) {
+  let Term::Concat { children, .. } = t else { return };
+  if children.len() < 2 {
+    return;
+  }
+  ctx.evaluations += 1;
+  let r = observe::guarded(|| {
+    let mut c = rspack_sources::ConcatSource::default();
+    let mut want: Vec<u8> = Vec::new();
+    for (i, ch) in children.iter().enumerate() {
+      match ch.build_typed() {
+        crate::term::Built::Concat(cc) => c.add(cc),
+        crate::term::Built::Box(b) => c.add(b),
+      }
+      want.extend_from_slice(&model::model_bytes(ch));
+      let (size, buf, text_len) = (c.size(), c.buffer().len(), c.source().len());
+      let want_text = String::from_utf8_lossy(&[]).len() + children[..=i].iter().map(|x| model::model_text(x).len()).sum::<usize>();
+      if size != want.len() || buf != want.len() || text_len != want_text {
+        return Some(format!("after adding child {i}: size()={size}, buffer().len()={buf}, source().len()={text_len}; the children so far have {} bytes / {} text bytes", want.len(), want_text));
+      }
+    }
+    None
+  });
+  match r {
+    Ok(None) => {}
+    Ok(Some(d)) => ctx.violation("staged_concat_views", String::new(), None, || case_json(t), t.size(), d),
+    Err(e) => report_panic(ctx, t, "staged add", &e),
+  }
+  ctx.transitions += children.len() as u64;
 }
 
 /// Reads `r` through every positional reader and compares with the string it is meant to be.
